@@ -59,6 +59,7 @@ type scenario struct {
 	Handler bool   `json:"handler"`
 	HMode   int    `json:"hmode"` // 0: the driver's handler; 1: none (the library reports the panic itself); 2: goz.LogPanic; 3: set, then reset with nil
 	PKind   int    `json:"pkind"`
+	Depth   int    `json:"depth"` // hmode 2: the traceback depth given to goz.LogPanic
 	Nils    []bool `json:"nils"` // per task: a nil func() is submitted (honoured only without a driver handler) // panic value: 0 the task number; 1 an error whose Error method panics; 2 a Stringer whose String method panics
 }
 
@@ -110,7 +111,7 @@ func runScenario(sc scenario, out func(map[string]interface{})) {
 	case 0:
 		l.SetPanicHandler(func(v any) { r.log(map[string]interface{}{"ev": "handler", "v": panicID(v)}) })
 	case 2:
-		l.SetPanicHandler(goz.LogPanic(&nullLogger{}, 3))
+		l.SetPanicHandler(goz.LogPanic(&nullLogger{}, sc.Depth))
 	case 3: // a handler configured and then reset to the built-in report
 		l.SetPanicHandler(func(v any) { r.log(map[string]interface{}{"ev": "handler", "v": panicID(v)}) })
 		l.SetPanicHandler(nil)
@@ -596,7 +597,8 @@ func main() {
 	for s := 0; s < *n; s++ {
 		limits := []int{1, 2, 3, 1, 2, 4, 0, -1, -5}
 		sc := scenario{Limit: limits[rng.Intn(len(limits))], Jitter: rng.Int63(), Handler: true,
-			HMode: []int{0, 0, 0, 1, 2, 3}[rng.Intn(6)], PKind: []int{0, 0, 1, 2}[rng.Intn(4)]}
+			HMode: []int{0, 0, 0, 1, 2, 3}[rng.Intn(6)], PKind: []int{0, 0, 1, 2}[rng.Intn(4)],
+			Depth: []int{0, 1, 3, 31, 32, 33, 64, 1000}[rng.Intn(8)]}
 		k := 1 + rng.Intn(7)
 		for i := 0; i < k; i++ {
 			sc.Panics = append(sc.Panics, rng.Intn(3) == 0)
